@@ -1,8 +1,9 @@
 import SSVerif.Model.Dict
+import SSVerif.Model.Dict2pid
 import Driver.Util
 /-! driver sub-command `c16`: replays a dictionary op file on the model (same line format as harness/h_c16.c) -/
 namespace Driver.C16
-open SSVerif.Dict Driver
+open SSVerif.Dict SSVerif.Dict2pid Driver
 open SSVerif.HashTable (Key)
 
 structure St where
@@ -13,6 +14,8 @@ structure St where
   flines : List (Key × Key) := []     -- reversed
   d : Option Dict := none
   t : D2P := { ldiph := [], rdiph := [], single := [] }
+  bm : BinMdef := default
+  tabs : Tabs := Tabs.empty
   grammar : Option (List Key) := none
 
 def showOptNat : Option Nat → String
@@ -47,6 +50,62 @@ def alignTokens (s : Key) : List Key :=
 
 def qsortStr (l : List String) : List String := (l.toArray.qsort (· < ·)).toList
 
+def dots (l : List Nat) : String := ".".intercalate (l.map toString)
+
+def insertSorted {α : Type} (lt : α → α → Bool) (x : α) : List α → List α
+  | [] => [x]
+  | y :: ys => if lt x y then x :: y :: ys else y :: insertSorted lt x ys
+
+def sortBy {α : Type} (lt : α → α → Bool) (l : List α) : List α := l.foldl (fun acc x => insertSorted lt x acc) []
+
+def ltPair (a b : Nat × Nat) : Bool := a.1 < b.1 || (a.1 == b.1 && a.2 < b.2)
+
+/-- every written row, in key order (same text as the harness `tabs` op) -/
+def showTabs (_m : BinMdef) (t : Tabs) : String :=
+  let lk := sortBy ltPair (keysOf t.ldiph)
+  let sk := sortBy (· < ·) (keysOf t.lrdiph)
+  let rk := sortBy ltPair (keysOf t.rssid)
+  let ls := lk.filterMap fun k => (t.ldiph.lookup k).bind fun row =>
+    if row.all (· == bad) then none else some s!" L{k.1},{k.2}:{dots row}"
+  let ss := sk.filterMap fun b => (t.lrdiph.lookup b).bind fun blk =>
+    if blk.all (fun r => r.all (· == bad)) then none else some s!" S{b}:{dots blk.flatten}"
+  let rs := rk.filterMap fun k => (t.rssid.lookup k).bind fun x =>
+    if x.ssid.isEmpty then none else some s!" R{k.1},{k.2}:{dots x.ssid}/{dots x.cimap}"
+  String.join (ls ++ ss ++ rs)
+
+/-- the entries a search reads for a word with pronunciation `p` equal the direct lookup (the flag-dependent
+silence rows are compared with what `populate_lrdiph` stores) -/
+def wordExact (m : BinMdef) (t : Tabs) (p : List Nat) : Bool :=
+  match p with
+  | [] => true
+  | [b] => (List.range m.nCi).all fun l => (List.range m.nCi).all fun r => t.lrdiphRc b l r == m.ssidOf b l r posSingle
+  | b :: r :: _ =>
+    let e := p.getD (p.length - 1) 0
+    let l2 := p.getD (p.length - 2) 0
+    ((List.range m.nCi).all fun l =>
+      t.ldiphLc b r l == m.ssidOf b l r posBegin ||
+      (silRowsL m && r == m.sil.toNat && t.ldiphLc b r l == m.ssidOf b l r posSingle)) &&
+    ((List.range m.nCi).all fun rc =>
+      (t.rssidAt e l2).get rc == m.ssidOf e l2 rc posEnd ||
+      (silRowsR m && l2 == m.sil.toNat && (t.rssidAt e l2).get rc == m.ssidOf e l2 rc posSingle))
+
+def parseNode (s : String) : CdNode :=
+  match s.splitOn "," with
+  | [a, b, c] => { ctx := a.toInt?.getD 0, nDown := b.toNat?.getD 0, c := c.toInt?.getD 0 }
+  | _ => default
+
+def loadMdef (path : String) : IO BinMdef := do
+  let txt ← IO.FS.readFile path
+  let mut m : BinMdef := default
+  for line in txt.splitOn "\n" do
+    match line.splitOn " " with
+    | "hdr" :: nci :: sil :: _ => m := { m with nCi := nci.toNat?.getD 0, sil := sil.toInt?.getD (-1) }
+    | "filler" :: fs => m := { m with filler := (fs.map (· == "1")).toArray }
+    | "tree" :: ns => m := { m with tree := (ns.map parseNode).toArray }
+    | "ssid" :: ss => m := { m with ssid := (ss.map fun x => x.toNat?.getD bad).toArray }
+    | _ => pure ()
+  return m
+
 def step (s : St) (ws : List String) : St × String :=
   match ws with
   | "mdef" :: sil :: names =>
@@ -68,7 +127,22 @@ def step (s : St) (ws : List String) : St × String :=
     let t := match d with
       | some d => D2P.build s.m.sil d
       | none => s.t
-    ({ s with d, t }, showInit d)
+    let tabs := match d with
+      | some d => if s.dec then build s.bm d else Tabs.empty
+      | none => Tabs.empty
+    ({ s with d, t, tabs }, showInit d)
+  | ["nearrow", b, pos] =>
+    match parseNat b, parseNat pos with
+    | some b, some pos =>
+      (s, "n" ++ String.join ((List.range s.bm.nCi).flatMap fun l => (List.range s.bm.nCi).map fun r =>
+            s!" {nearest s.bm b l r pos}"))
+    | _, _ => (s, "bad-op")
+  | ["near", b, l, r, pos] =>
+    match parseNat b, parseNat l, parseNat r, parseNat pos with
+    | some b, some l, some r, some pos =>
+      let p := nearest s.bm b l r pos
+      (s, s!"n {p} {s.bm.pid2ssid p}")
+    | _, _, _, _ => (s, "bad-op")
   | _ =>
   match s.d with
   | none => (s, "bad-op")
@@ -79,7 +153,8 @@ def step (s : St) (ws : List String) : St × String :=
     match parseHex w, parseHex p with
     | some w, some p =>
       let r := decoderAddWord2 s.m (d, s.t) w p
-      ({ s with d := some r.1.1, t := r.1.2 }, s!"r {showOptNat r.2}")
+      let r2 := decoderAddWordT s.m s.bm (d, s.tabs) w p
+      ({ s with d := some r.1.1, t := r.1.2, tabs := r2.1.2 }, s!"r {showOptNat r.2}")
     | _, _ => (s, "bad-op")
   | "dadd" :: w :: np :: ids =>
     if s.dec then (s, "bad-op") else
@@ -129,11 +204,23 @@ def step (s : St) (ws : List String) : St × String :=
           | none => s!"b -1 {toHex w}"
           | some b => s!"b {b.length} {toHex b}")
     | none => (s, "bad-op")
+  | ["tabs"] =>
+    if !s.dec then (s, "bad-op") else (s, "t" ++ showTabs s.bm s.tabs)
+  | ["intern", w] =>
+    match parseHex w with
+    | some w =>
+      (s, match d.wordid w with
+          | none => "i"
+          | some i =>
+            let p := (d.words[i]?).map (·.pron) |>.getD []
+            "i" ++ String.join ((List.range (p.length - 2)).map fun k => s!" {internal s.bm p (k + 1)}"))
+    | none => (s, "bad-op")
   | ["dump"] =>
     (s, s!"d n={d.words.length} max={d.maxWords} fs={d.fillerStart} fe={d.fillerEnd} | {showEntries d.words}")
   | ["d2p"] =>
     if !s.dec then (s, "bad-op") else
-    (s, if d.words.all (fun e => e.pron ≠ [] && s.t.covers e.pron) then "d2p ok" else "d2p bad (model)")
+    (s, if d.words.all (fun e => e.pron ≠ [] && s.t.covers e.pron && wordExact s.bm s.tabs e.pron) then "d2p ok"
+        else "d2p bad (model)")
   | "fsg" :: wsx =>
     if !s.dec then (s, "bad-op") else
     match parseHexAll wsx with
@@ -176,6 +263,27 @@ def step (s : St) (ws : List String) : St × String :=
       (s, s!"h {toHex (joinSp bs)}")
   | _ => (s, "bad-op")
 
-def main : IO Unit := runLoop step {}
+partial def loopIO (h out : IO.FS.Stream) (s : St) : IO Unit := do
+  let line ← h.getLine
+  if line.isEmpty then return ()
+  match words line with
+  | ["mdeffile", path] =>
+    let bm ← loadMdef path
+    out.putStrLn "mdef2 ok"
+    loopIO h out { s with bm }
+  | ws =>
+    let (s', o) := step s ws
+    out.putStrLn o
+    loopIO h out s'
+
+def main : IO Unit := do
+  let stdin ← IO.getStdin
+  let stdout ← IO.getStdout
+  -- the dump of the acoustic model's triphone tree (written by `h_c16 mdefdump`) may also come through the environment
+  let bm ← match (← IO.getEnv "C16_MDEF") with
+    | some path => loadMdef path
+    | none => pure default
+  loopIO stdin stdout { bm }
+  stdout.flush
 
 end Driver.C16
